@@ -1,6 +1,7 @@
 """C03 - formula strings evaluate to the value mathematics assigns them (operator semantics part; language part on SymStr in c03 O3)."""
 import itertools
 import math
+import numpy as np
 
 from symx import Harness, pname, sand, sor, simplies, siff, near_le, near_eq, snot, sif, smax, is_sym, SymReal
 
@@ -18,7 +19,7 @@ ASSUMPTIONS = ['operands are any reals in [-3,3] (zero included) except bases of
                'exponents and all intermediate values are unrestricted', 'x^y with a non-literal exponent is abstracted as an uninterpreted function pow(x,y) on both sides']
 BOUNDS = {'quick': 'all operator sequences of length <= 4 (1554 skeletons) x unary-minus placements (none, each single position, all) x 6 renderings; accepted language: all Unicode strings of length <= 3',
           'thorough': 'all operator sequences of length <= 4 (1554 skeletons) x ALL unary-minus placements x 6 renderings; accepted language: length <= 4'}
-OUTSIDE = ['numeric values of transcendental ufuncs (numpy C code)', 'IEEE rounding', 'complex variable bindings', 'nesting deeper than the generated skeletons',
+OUTSIDE = ['numeric values of transcendental ufuncs (numpy C code)', 'IEEE rounding', 'symbolic complex variable bindings (concrete complex bindings of every numeric type are covered)', 'nesting deeper than the generated skeletons',
            'the accepted language beyond the string-length bound']
 DEADLINE = {'quick': 170, 'thorough': 2400}
 FUNCS = ['expressions.MathParser.parse/raw_parse/get_grammar (real pyparsing)', 'MathExpression.eval/eval_node', 'MathExpression.eval_power', 'eval_negation',
@@ -198,6 +199,36 @@ def h_names(E, form):
     got, meta = evaluator(s, env, DEFAULT_FUNCTIONS, DEFAULT_SUFFIXES)
     E.check('names-resolve-case-sensitively', near_eq(got, want))
     return 'ok'
+
+
+def _bindings():
+    from mitxgraders.helpers.calc.math_array import MathArray
+    return [('int', 3), ('big-int', 2 ** 70), ('float', 2.5), ('complex', 1.5 + 2j), ('np.float64', np.float64(2.5)), ('np.float32', np.float32(0.5)),
+            ('np.int64', np.int64(7)), ('np.int32', np.int32(-4)), ('np.complex128', np.complex128(1.5 + 2j)), ('np.complex64', np.complex64(0.5 - 1j)),
+            ('bool-free-zero', 0), ('negative-float', -0.75), ('array', MathArray([1.0, 2.0])), ('complex-array', MathArray([1 + 1j, 2.0]))]
+
+
+def h_bindings(E, idx):
+    """names resolve to the SUPPLIED value whatever numeric type carries it (python and numpy integers, floats, complex numbers, arrays):
+    the value of `z`, of `2*z+1` and of `z*z` is the one arithmetic gives for that value; the second operand is symbolic"""
+    from mitxgraders.helpers.calc.expressions import evaluator, DEFAULT_FUNCTIONS, DEFAULT_SUFFIXES
+    kind, val = _bindings()[idx]
+    t = E.real('t', -3, 3)
+    ref = complex(val) if not hasattr(val, 'shape') or val.shape == () else None
+    v1, _ = evaluator('z', {'z': val}, DEFAULT_FUNCTIONS, DEFAULT_SUFFIXES, max_array_dim=1)
+    v2, _ = evaluator('z*t + 1' if ref is not None else 'z*t', {'z': val, 't': t}, DEFAULT_FUNCTIONS, DEFAULT_SUFFIXES, max_array_dim=1)
+    if ref is not None:
+        E.check('name-resolves-to-supplied-value', complex(v1) == ref)
+        want_re, want_im = ref.real * t + 1, ref.imag * t
+        got_re, got_im = (v2.real, v2.imag) if hasattr(v2, 'imag') else (v2, 0)
+        E.check('arithmetic-on-supplied-value', sand(near_eq(got_re, want_re), near_eq(got_im, want_im)))
+    else:
+        arr = np.asarray(val)
+        E.check('name-resolves-to-supplied-value', v1.shape == arr.shape and all(complex(a) == complex(b) for a, b in zip(np.asarray(v1).ravel(), arr.ravel())))
+        got = [v2[i] for i in range(arr.shape[0])]
+        E.check('arithmetic-on-supplied-value', sand(*[sand(near_eq(getattr(g, 'real', g), complex(a).real * t), near_eq(getattr(g, 'imag', 0), complex(a).imag * t))
+                                                       for g, a in zip(got, arr)]))
+    return kind
 
 
 def h_undefined(E, name):
@@ -506,6 +537,9 @@ def harnesses(tier):
             hs[-1].params = (lit.strip(), suf)
     for form in ('sum', 'constants', 'mixed'):
         add(h_names, 'names', dict(form=form), '10 symbolic variables with confusable names')
+    for i in range(len(_bindings())):
+        add(h_bindings, 'bindings', dict(i=i, kind=_bindings()[i][0]), 'value of that numeric type times a symbolic real')
+        hs[-1].params = (i,)
     for nm in ['X', 'x_', 'SIN(x)', 'Pi', 'Sqrt(x)', "x''", 'x_2', 'E']:
         add(h_undefined, 'undefined', dict(name=nm), 'only x defined')
     for w in ('none', 'blank', 'spaces', 'array'):
